@@ -171,7 +171,7 @@ func (policyDoc *OCIDocument) GetApplicableTrustPolicy(artifactReference string)
 func (t *OCITrustPolicy) clone() *OCITrustPolicy {
 	return &OCITrustPolicy{
 		Name:                  t.Name,
-		SignatureVerification: t.SignatureVerification,
+		SignatureVerification: t.SignatureVerification.clone(),
 		TrustedIdentities:     append([]string(nil), t.TrustedIdentities...),
 		TrustStores:           append([]string(nil), t.TrustStores...),
 		RegistryScopes:        append([]string(nil), t.RegistryScopes...),
